@@ -28,7 +28,7 @@ def lemmas():
     out.append(S('C14', F_CP, '_ConfigParserDict._key_transform', 'storage-normal-form', ["k = k.strip().replace(' ', '')", "k = k.replace('\\t', '')", 'return k']))
     for m in ('__setitem__', '__getitem__', '__delitem__'):
         out.append(S('C14', F_CP, '_ConfigParserDict.' + m, 'uses-the-normal-form', ['key = self._key_transform(key)']))
-    out.append(S('C14', F_CP, '_RawConfigParser.options', 'length-of-a-section-counts-own-keys-only', ['return list(self._sections[section].keys())']))
+    out.append(S('C14', F_CP, '_RawConfigParser.options', 'length-of-a-section-counts-own-keys-only', ['return list(self._sections[section].keys())\n except KeyError:']))
     # CLI: later override of the same key wins, removals after overrides, additions kept in order
     out.append(S('C14', F_POT, '_make_config_parser', 'cli-merge',
                  ['override_dict = collections.OrderedDict()', 'k = (over_tuple.section, over_tuple.key)', 'override_dict[k] = over_tuple', 'over_tuple = _create_override_tuple(override, False)',
